@@ -30,14 +30,14 @@ theorem subMat_row_length (A : List (List α)) (idx : List ℕ) :
 theorem maskIndices_nodup (P : List Bool) : (maskIndices P).Nodup := by
   unfold maskIndices; exact List.nodup_range.filter _
 
-/-- `reconstruction_positive_only_from`: a main-exit result is certified for the system it was given,
-    with the code's tolerance `eps·n`, whether or not the warm start is used. -/
-theorem reconPosOnly_main_certified (solve : List (List α) → List α → Option (List α))
+/-- `reconstruction_positive_only_from`: every returned vector is certified for the system it was given,
+    with the code's tolerance `eps·n`, whether or not the warm start is used (dual part: main exit). -/
+theorem reconPosOnly_certified (solve : List (List α) → List α → Option (List α))
     (hc : Spec.SolveContract solve) (n : ℕ) (A : List (List α)) (b : List α) (hA : A.length = n)
     (hrow : ∀ r, r ∈ A → r.length = n) (hb : b.length = n) (eps : α) (heps : 0 ≤ eps) (maxIter : ℕ)
-    (usePInit : Bool) (d : List α) (lc lc2 : ℕ)
-    (h : reconPosOnly solve eps maxIter usePInit A b = .ok d .main lc lc2) :
-    Certified n A b d (eps * (n : α)) := by
+    (usePInit : Bool) (d : List α) (ex : Exit) (lc lc2 : ℕ)
+    (h : reconPosOnly solve eps maxIter usePInit A b = .ok d ex lc lc2) :
+    CertifiedEx n A b d (eps * (n : α)) ex := by
   have htol : 0 ≤ eps * (n : α) := mul_nonneg heps (Nat.cast_nonneg n)
   unfold reconPosOnly at h
   split at h
@@ -48,13 +48,22 @@ theorem reconPosOnly_main_certified (solve : List (List α) → List α → Opti
       · simp at h
       · rename_i u hu
         have hul : u.length = n := by rw [(hc _ _ _ hu).1, hb]
-        refine fnnls_main_certified solve hc n A b hA hrow _ htol maxIter hb _ ?_ d lc lc2 h
+        refine fnnls_certified solve hc n A b hA hrow _ htol maxIter hb _ ?_ d ex lc lc2 h
         intro idx hidx
         cases hidx
         refine ⟨maskIndices_nodup _, fun i hi => ?_⟩
         have := ((mem_maskIndices _ i).mp hi).1
         simpa [hul] using this
-    · exact fnnls_main_certified solve hc n A b hA hrow _ htol maxIter hb none (by simp) d lc lc2 h
+    · exact fnnls_certified solve hc n A b hA hrow _ htol maxIter hb none (by simp) d ex lc lc2 h
+
+theorem reconPosOnly_main_certified (solve : List (List α) → List α → Option (List α))
+    (hc : Spec.SolveContract solve) (n : ℕ) (A : List (List α)) (b : List α) (hA : A.length = n)
+    (hrow : ∀ r, r ∈ A → r.length = n) (hb : b.length = n) (eps : α) (heps : 0 ≤ eps) (maxIter : ℕ)
+    (usePInit : Bool) (d : List α) (lc lc2 : ℕ)
+    (h : reconPosOnly solve eps maxIter usePInit A b = .ok d .main lc lc2) :
+    Certified n A b d (eps * (n : α)) :=
+  CertifiedEx.main n A b d _
+    (reconPosOnly_certified solve hc n A b hA hrow hb eps heps maxIter usePInit d .main lc lc2 h)
 
 /-! ### mapped reconstructed data -/
 
